@@ -100,4 +100,29 @@ CHECKS = {
         runs=[dict(engine="shipsim", test="TestC09", quick=dict(checks=30000, shards=4, timeout=600),
                    thorough=dict(checks=1200000, shards=16, timeout=3000))],
     ),
+    "C12": dict(
+        level="exploration",
+        rule=("rapid-generated races on a real ws.WebsocketConnection over gorilla over an in-memory pipe (synctest bubble): 1-8 writer "
+              "goroutines x 1-12 messages, peer reading or stalling after r frames (full queue, pump blocked in write), pipe capacity 16 B .. "
+              "64 KiB, closing event (local close with/without reason, peer close frame, abrupt EOF, failing transport write) placed after "
+              "the p-th accepted write with 0-5 scheduler yields. Oracle: every write returns (no panic, no hang), writes started after the "
+              "closure fail, and what the peer received is a gap-free prefix consistent with the callers' real-time order (no duplicate, "
+              "no corrupt frame, no refused message). non-trivial = >= 2 writers and the close landed before the last write returned; "
+              "distinct = hash of the script"),
+        runs=[dict(engine="wsfault", test="TestC12", quick=dict(checks=6000, shards=4, timeout=600),
+                   thorough=dict(checks=200000, shards=16, timeout=3000))],
+        assumptions=["goroutine interleavings inside the websocket layer are sampled by the Go scheduler (amplified by stalls, tiny pipe buffers and yields), not enumerated"],
+    ),
+    "C13": dict(
+        level="fault_enumeration",
+        rule=("rapid-generated websocket sessions (0-6 messages each way, optional ping/pong phase after 55 virtual seconds, concurrent "
+              "traffic); each session is first run fault-free to count the R reads and W writes on the socket of the connection under "
+              "test, then re-run with the k-th read failing for every k<=R+1 (error or EOF), the k-th write failing for every k<=W+1 "
+              "(error or short write), a peer close frame (codes 1000..4999), abrupt EOF, local close with and without reason. Oracle: error "
+              "reported (non-nil) and closed-query (true, non-nil) after a failure / peer close, no report after a deliberate local close; "
+              "no message delivered afterwards; two virtual minutes later no goroutine inside the ws package and the socket was closed. "
+              "non-trivial = fault triggered in mid-session (k>1) or concurrent traffic; distinct = hash of (session, cause, k)"),
+        runs=[dict(engine="wsfault", test="TestC13", quick=dict(checks=60, shards=4, timeout=600, may_stop_early=False),
+                   thorough=dict(checks=3000, shards=16, timeout=3000))],
+    ),
 }
